@@ -1465,6 +1465,26 @@ impl PhysicalOperator for ExternalSortExec {
         // Clean up
         let _ = std::fs::remove_dir_all(&spill_dir);
 
+        // Top-K: the planner fuses `ORDER BY .. LIMIT k` into this operator, so
+        // no LimitExec sits above it. The merged output is fully ordered; keep
+        // only the first `fetch` rows, exactly as the in-memory branch does.
+        let result = match self.fetch {
+            Some(fetch) => {
+                let mut remaining = fetch;
+                let mut limited = Vec::new();
+                for batch in result {
+                    if remaining == 0 {
+                        break;
+                    }
+                    let take = remaining.min(batch.num_rows());
+                    limited.push(batch.slice(0, take));
+                    remaining -= take;
+                }
+                limited
+            }
+            None => result,
+        };
+
         Ok(Box::pin(stream::iter(result.into_iter().map(Ok))))
     }
 
